@@ -991,6 +991,14 @@ theorem convInt_ids (o : Opts) (v : Val) : resIds (convInt o v) = [] := by
       · split <;> simp [resIds]
   · simp [resIds]
 
+theorem guardL_fr (L : Ty → Cid) (f : Ty → Val → Comp) (A : List Nat) (ty : Ty) (v : Val) (s : St)
+    (h : Fr A s (f ty v s).2 (resIds (f ty v s).1)) :
+    Fr A s (guardL L f ty v s).2 (resIds (guardL L f ty v s).1) := by
+  unfold guardL
+  split
+  · exact h
+  · exact Fr.refl (by simp [resIds])
+
 /-- the body of a container rebuild: convert every item -/
 theorem mapBody_fr (A B : List Nat) (f : Val → Comp) (items : List Val) (ks : List String)
     (hitems : ∀ i ∈ mutIdsL items, i ∈ A) (hB : ∀ i ∈ B, i ∈ A)
@@ -1028,9 +1036,9 @@ theorem zipBody_fr (A B : List Nat) (f : Ty → Val → Comp) (ts : List Ty) (it
     | error e => exact hm.err
     | ok items' => simpa [bodyIds, resIdsL] using hm
 
-theorem conv_fr (E : Env) (A : List Nat) (hleak : ∀ i ∈ E.leak, i ∈ A) :
+theorem conv_fr (L : Ty → Cid) (E : Env) (A : List Nat) (hleak : ∀ i ∈ E.leak, i ∈ A) :
     ∀ (fuel : Nat) (o : Opts) (ty : Ty) (v : Val), (∀ i ∈ v.mutIds, i ∈ A) → ∀ s,
-      Fr A s (conv E o fuel ty v s).2 (resIds (conv E o fuel ty v s).1) := by
+      Fr A s (conv L E o fuel ty v s).2 (resIds (conv L E o fuel ty v s).1) := by
   intro fuel
   induction fuel generalizing A with
   | zero => intro o ty v hv s; exact Fr.refl (by simp [conv, resIds])
@@ -1038,11 +1046,11 @@ theorem conv_fr (E : Env) (A : List Nat) (hleak : ∀ i ∈ E.leak, i ∈ A) :
     intro o ty v hv s
     -- the recursive call, in the two shapes the traversals want
     have ihB : ∀ (o : Opts) (t : Ty) (w : Val) (s : St),
-        Fr (w.mutIds ++ E.leak) s (conv E o fuel t w s).2 (resIds (conv E o fuel t w s).1) :=
+        Fr (w.mutIds ++ E.leak) s (conv L E o fuel t w s).2 (resIds (conv L E o fuel t w s).1) :=
       fun o t w s => ih (w.mutIds ++ E.leak) (fun i h => List.mem_append_right _ h) o t w
         (fun i h => List.mem_append_left _ h) s
     have ihA : ∀ (o : Opts) (t : Ty) (w : Val), (∀ i ∈ w.mutIds, i ∈ A) → ∀ s,
-        Fr A s (conv E o fuel t w s).2 (resIds (conv E o fuel t w s).1) := fun o t w hw s => ih A hleak o t w hw s
+        Fr A s (conv L E o fuel t w s).2 (resIds (conv L E o fuel t w s).1) := fun o t w hw s => ih A hleak o t w hw s
     cases ty with
     | any => exact Fr.refl (by simpa [conv, resIds] using hv)
     | int => exact Fr.refl (by simp [conv, convInt_ids])
@@ -1065,10 +1073,10 @@ theorem conv_fr (E : Env) (A : List Nat) (hleak : ∀ i ∈ E.leak, i ∈ A) :
             have hit : ∀ i ∈ mutIdsL items, i ∈ A ++ resIds (Except.ok (Val.node j k' ks items)) :=
               fun i hi => List.mem_append_right _ (by simp only [resIds]; exact mutIdsL_sub_node hi)
             have h2 := newThenFill_fr .list _ (A ++ resIds (Except.ok (Val.node j k' ks items)))
-              (mapBody_fr (A ++ resIds (Except.ok (Val.node j k' ks items))) E.leak (conv E o fuel t) items [] hit
+              (mapBody_fr (A ++ resIds (Except.ok (Val.node j k' ks items))) E.leak (conv L E o fuel t) items [] hit
                 (fun i hi => List.mem_append_left _ (hleak i hi)) (fun w _ s => ihB o t w s)) s1
             have h12 := h1.comp h2
-            cases hm : newThenFill .list (fun s2 => match mapC (conv E o fuel t) items s2 with
+            cases hm : newThenFill .list (fun s2 => match mapC (conv L E o fuel t) items s2 with
                 | (.error e, s3) => (.error e, s3)
                 | (.ok items', s3) => (.ok ([], items'), s3)) s1 with
             | mk r3 s3 =>
@@ -1099,7 +1107,7 @@ theorem conv_fr (E : Env) (A : List Nat) (hleak : ∀ i ∈ E.leak, i ∈ A) :
             have hit : ∀ i ∈ mutIdsL items, i ∈ A ++ resIds (Except.ok (Val.node j k' ks items)) :=
               fun i hi => List.mem_append_right _ (by simp only [resIds]; exact mutIdsL_sub_node hi)
             have h2 := newThenFill_fr .dict _ (A ++ resIds (Except.ok (Val.node j k' ks items)))
-              (mapBody_fr (A ++ resIds (Except.ok (Val.node j k' ks items))) E.leak (conv E o fuel t) items ks hit
+              (mapBody_fr (A ++ resIds (Except.ok (Val.node j k' ks items))) E.leak (conv L E o fuel t) items ks hit
                 (fun i hi => List.mem_append_left _ (hleak i hi)) (fun w _ s => ihB o t w s)) s1
             exact h1.comp h2
     | tup ts =>
@@ -1122,10 +1130,10 @@ theorem conv_fr (E : Env) (A : List Nat) (hleak : ∀ i ∈ E.leak, i ∈ A) :
               have hit : ∀ i ∈ mutIdsL items, i ∈ A ++ resIds (Except.ok (Val.node j k' ks items)) :=
                 fun i hi => List.mem_append_right _ (by simp only [resIds]; exact mutIdsL_sub_node hi)
               have h2 := newThenFill_fr .list _ (A ++ resIds (Except.ok (Val.node j k' ks items)))
-                (zipBody_fr (A ++ resIds (Except.ok (Val.node j k' ks items))) E.leak (conv E o fuel) ts items hit
+                (zipBody_fr (A ++ resIds (Except.ok (Val.node j k' ks items))) E.leak (conv L E o fuel) ts items hit
                   (fun i hi => List.mem_append_left _ (hleak i hi)) (fun t w _ s => ihB o t w s)) s1
               have h12 := h1.comp h2
-              cases hm : newThenFill .list (fun s2 => match zipC (conv E o fuel) ts items s2 with
+              cases hm : newThenFill .list (fun s2 => match zipC (conv L E o fuel) ts items s2 with
                   | (.error e, s3) => (.error e, s3)
                   | (.ok items', s3) => (.ok ([], items'), s3)) s1 with
               | mk r3 s3 =>
@@ -1139,7 +1147,7 @@ theorem conv_fr (E : Env) (A : List Nat) (hleak : ∀ i ∈ E.leak, i ∈ A) :
     | con t lg mx mn =>
       simp only [conv]
       have h1 := ihA o t v hv s
-      cases hr : conv E o fuel t v s with
+      cases hr : conv L E o fuel t v s with
       | mk r s1 =>
         rw [hr] at h1
         cases r with
@@ -1158,8 +1166,8 @@ theorem conv_fr (E : Env) (A : List Nat) (hleak : ∀ i ∈ E.leak, i ∈ A) :
     | data k =>
       simp only [conv]
       have hinit : ∀ (ks : List String) (xs : List Val), (∀ w ∈ xs, ∀ i ∈ w.mutIds, i ∈ A) →
-          Fr A s (initWith (conv E {} fuel) {} E k ks xs s).2 (resIds (initWith (conv E {} fuel) {} E k ks xs s).1) :=
-        fun ks xs hx => initWith_fr (conv E {} fuel) {} A E k ks xs hx (fun t w hw s => ihA {} t w hw s)
+          Fr A s (initWith (guardL L (conv L E {} fuel)) {} E k ks xs s).2 (resIds (initWith (guardL L (conv L E {} fuel)) {} E k ks xs s).1) :=
+        fun ks xs hx => initWith_fr (guardL L (conv L E {} fuel)) {} A E k ks xs hx (fun t w hw s => guardL_fr L _ A t w s (ihA {} t w hw s))
           (by simp [ROpts.opqIds]) hleak s
       cases v with
       | none => exact Fr.refl (by simp [resIds])
@@ -1215,20 +1223,22 @@ theorem zip_snd_ids (ks : List String) (xs : List Val) :
   obtain ⟨q, hq, rfl⟩ := List.mem_map.mp hv
   exact mem_mutIdsL.mpr ⟨q.2, (List.of_mem_zip hq).2, h⟩
 
-theorem callWith_fr (optsOf : List (Option Opts) → Nat → Opts) (ro : ROpts) (E : Env) (A : List Nat)
+theorem callWith_fr (optsOf : List (Option Opts) → Nat → Opts) (L : Ty → Cid) (rb : Bool) (ro : ROpts) (E : Env) (A : List Nat)
     (hleak : ∀ i ∈ E.leak, i ∈ A) (hro : ∀ i ∈ ro.opqIds, i ∈ A) (target wrapper : Nat) (ks : List String) (xs : List Val)
     (hx : ∀ v ∈ xs, ∀ i ∈ v.mutIds, i ∈ A) (s : St) :
-    Fr A s (callWith optsOf ro E target wrapper ks xs s).2 (resIds (callWith optsOf ro E target wrapper ks xs s).1) := by
+    Fr A s (callWith optsOf L rb ro E target wrapper ks xs s).2 (resIds (callWith optsOf L rb ro E target wrapper ks xs s).1) := by
   simp only [callWith]
   cases hk : E[target]? with
   | none => exact Fr.refl (by simp [resIds])
   | some d =>
     simp only
     split
-    · have h1 := parseInto_fr (conv E (optsOf d.wrappers wrapper) fuelDefault) {} A { d with dfs := false } ks xs hx
-        (fun t w hw s => conv_fr E A hleak fuelDefault _ t w hw s) (by simp [ROpts.opqIds])
+    · exact Fr.refl (by simp [resIds])
+    split
+    · have h1 := parseInto_fr (guardL L (conv L E (optsOf d.wrappers wrapper) fuelDefault)) {} A { d with dfs := false } ks xs hx
+        (fun t w hw s => guardL_fr L _ A t w s (conv_fr L E A hleak fuelDefault _ t w hw s)) (by simp [ROpts.opqIds])
         (fun f hf i hi => hleak i (leak_of_field hk f hf i hi)) s
-      cases hr : parseInto (conv E (optsOf d.wrappers wrapper) fuelDefault) {} { d with dfs := false } ks xs s with
+      cases hr : parseInto (guardL L (conv L E (optsOf d.wrappers wrapper) fuelDefault)) {} { d with dfs := false } ks xs s with
       | mk r s1 =>
         rw [hr] at h1
         cases r with
@@ -1252,9 +1262,9 @@ theorem callWith_fr (optsOf : List (Option Opts) → Nat → Opts) (ro : ROpts) 
               simp only
               have hv : ∀ i ∈ v.mutIds, i ∈ A ++ resIds (Except.ok pk) := fun i hi =>
                 hpk i (mem_mutIdsL.mpr ⟨v, lookupKV_mem _ _ _ _ hl, hi⟩)
-              have h2 := conv_fr E (A ++ resIds (Except.ok pk)) (fun i hi => List.mem_append_left _ (hleak i hi))
-                fuelDefault (optsOf d.wrappers wrapper) ty v hv s1
-              cases hc : conv E (optsOf d.wrappers wrapper) fuelDefault ty v s1 with
+              have h2 := guardL_fr L _ _ ty v s1 (conv_fr L E (A ++ resIds (Except.ok pk)) (fun i hi => List.mem_append_left _ (hleak i hi))
+                fuelDefault (optsOf d.wrappers wrapper) ty v hv s1)
+              cases hc : guardL L (conv L E (optsOf d.wrappers wrapper) fuelDefault) ty v s1 with
               | mk r2 s2 =>
                 rw [hc] at h2
                 cases r2 with
@@ -1264,8 +1274,8 @@ theorem callWith_fr (optsOf : List (Option Opts) → Nat → Opts) (ro : ROpts) 
                   have h12 : Fr A s s2 (resIds (Except.ok pk)) :=
                     (h1.carry h2.err).weaken (fun _ h => h) (fun i hi => by simpa using hi)
                   exact h12.comp (hb s2)
-    · exact initWith_fr (conv E {} fuelDefault) ro A E target ks xs hx
-        (fun t w hw s => conv_fr E A hleak fuelDefault _ t w hw s) hro hleak s
+    · exact initWith_fr (guardL L (conv L E {} fuelDefault)) ro A E target ks xs hx
+        (fun t w hw s => guardL_fr L _ A t w s (conv_fr L E A hleak fuelDefault _ t w hw s)) hro hleak s
 
 /-! ### in-place writes -/
 
@@ -1405,12 +1415,13 @@ theorem writeAll_roots_eq (w : World) (i : Nat) (f : Kind → List String → Li
 theorem writeAll_next (w : World) (i : Nat) (f : Kind → List String → List Val → Option (List String × List Val)) :
     (w.writeAll i f).next = w.next := rfl
 
-theorem World.ext' {a b : World} (h1 : a.env = b.env) (h2 : a.next = b.next) (h3 : a.roots = b.roots) : a = b := by
+theorem World.ext' {a b : World} (h1 : a.env = b.env) (h2 : a.next = b.next) (h3 : a.roots = b.roots)
+    (h4 : a.proc = b.proc) : a = b := by
   cases a; cases b; simp_all
 
 theorem writeAll_eq_self (w : World) (i : Nat) (f : Kind → List String → List Val → Option (List String × List Val))
     (h1 : i ∉ w.env.declIds) (h2 : i ∉ w.rootIds) : w.writeAll i f = w :=
-  World.ext' (writeAll_env_eq w i f h1) rfl (writeAll_roots_eq w i f h2)
+  World.ext' (writeAll_env_eq w i f h1) rfl (writeAll_roots_eq w i f h2) rfl
 
 theorem applyWrites_eq_self (w : World) (ws : List Nat)
     (h : ∀ i ∈ ws, i ∉ w.env.declIds ∧ i ∉ w.rootIds) : w.applyWrites ws = w := by
